@@ -7,6 +7,7 @@ import (
 	"io"
 	"os"
 	"regexp"
+	"regexp/syntax"
 	"time"
 	"unicode/utf8"
 
@@ -35,6 +36,7 @@ type SScenario struct {
 	Items   []SItem `json:"items"`
 	Honest  bool    `json:"honest"` // every width equals the UTF-8 length of its rune
 	Shape   string  `json:"shape"`
+	Long    bool    `json:"long,omitempty"` // text crosses a 4/8/16/32/64 K boundary
 }
 
 var errOther = errors.New("simulated transport failure")
@@ -96,6 +98,18 @@ func genStream(prop string, seed uint64, index int, tier string) *SScenario {
 	alpha := patternAlphabet(sc.Pattern)
 	hr := r.fork(3)
 	h := genHaystack(hr, sc.Pattern, re, alpha, pick(hr, []int{0, 1, 1, 2, 2, 3}))
+	if lr := r.fork(6); lr.p(1, 14) {
+		// long stream: crosses the sizes at which a consumer that reads in chunks or
+		// windows (instead of draining the reader) would cut the text, with a member of
+		// the language ending exactly at, just before or just after the cut, and text
+		// after the cut that decides the answer
+		bounds := []int{4096, 4096, 8192, 16384}
+		if tier == "thorough" {
+			bounds = append(bounds, 32768, 65536)
+		}
+		h = genLongStream(lr, re, alpha, pick(lr, bounds))
+		sc.Long = true
+	}
 	// decode the way a byte-oriented reader does: invalid bytes are (U+FFFD, 1)
 	for i := 0; i < len(h); {
 		rn, w := utf8.DecodeRune(h[i:])
@@ -143,9 +157,58 @@ func genStream(prop string, seed uint64, index int, tier string) *SScenario {
 		sc.Items = append([]SItem{{Err: "other"}}, sc.Items...)
 		shape += "+err@start+resumes"
 	}
+	if sc.Long {
+		shape = "long:" + shape
+	}
 	sc.Shape = shape
 	_, sc.Honest = sc.delivered()
 	return sc
+}
+
+// genLongStream builds a text of more than b bytes (or runes): pieces of noise and
+// members up to the boundary, one member aligned to end at b+delta, then a tail.
+func genLongStream(r *rng, re *syntax.Regexp, alpha []string, b int) []byte {
+	inRunes := r.p(1, 3)
+	measure := func(x []byte) int {
+		if inRunes {
+			return utf8.RuneCount(x)
+		}
+		return len(x)
+	}
+	noiseMax := pick(r, []int{0, 3, 40, 300})
+	var out []byte
+	for i := 0; i < 40000 && measure(out) < b-160; i++ {
+		out = append(out, genNoise(r, alpha, r.n(noiseMax+1))...)
+		if r.p(3, 4) {
+			m := genMatch(r, re, 0)
+			if len(m) == 0 {
+				m = genNoise(r, alpha, 1)
+			}
+			out = append(out, m...)
+		}
+	}
+	m := genMatch(r, re, 0)
+	target := b + pick(r, []int{-1, 0, 0, 0, 1, 2}) - measure(m)
+	for i := 0; i < 70000 && measure(out) < target; i++ {
+		out = append(out, pick(r, alpha)...)
+	}
+	out = append(out, m...)
+	switch r.n(4) {
+	case 0: // one more byte decides what an end assertion or a word boundary sees
+		out = append(out, pick(r, alpha)...)
+	case 1:
+	default:
+		want := measure(out) + r.between(1, b/2)
+		for i := 0; i < 40000 && measure(out) < want; i++ {
+			out = append(out, genNoise(r, alpha, r.n(noiseMax+1))...)
+			if r.p(3, 4) {
+				out = append(out, genMatch(r, re, 0)...)
+			} else {
+				out = append(out, pick(r, alpha)...)
+			}
+		}
+	}
+	return out
 }
 
 func pos3(k, n int) string {
@@ -363,17 +426,33 @@ func minimizeStream(path string, emit func(any)) int {
 		emit(FailLine{Kind: "minimized", Engine: "stream", Index: best.Index, Seed: best.Seed, Outcome: first, Scenario: best})
 		return 0
 	}
-	changed := true
-	for changed {
-		changed = false
-		for i := 0; i < len(best.Items); i++ {
+	// delta debugging over the item list: drop chunks (halves, quarters, ... single
+	// items) while the same failure persists; the number of trials is bounded so that a
+	// 64 K stream still finishes (by count, not by clock: replay stays deterministic)
+	trials, work := 0, 0
+	for chunk := (len(best.Items) + 1) / 2; chunk >= 1 && trials < 6000 && work < 30000000; {
+		removed := false
+		for i := 0; i+chunk <= len(best.Items) && trials < 6000 && work < 30000000; {
 			c := *best
-			c.Items = append(append([]SItem(nil), best.Items[:i]...), best.Items[i+1:]...)
+			c.Items = append(append([]SItem(nil), best.Items[:i]...), best.Items[i+chunk:]...)
+			trials++
+			work += len(c.Items)
 			if o := runStream(&c); o.Class == first.Class && o.What == first.What {
 				best = &c
-				changed = true
-				i--
+				removed = true
+			} else {
+				i += chunk
 			}
+		}
+		if chunk == 1 {
+			if !removed {
+				break
+			}
+			continue
+		}
+		chunk = (chunk + 1) / 2
+		if chunk < 1 {
+			chunk = 1
 		}
 	}
 	final := runStream(best)
